@@ -1,45 +1,83 @@
 /-
-Lemmas/RelocMod.lean — relocation (C18-R1), part 11 (repair batch B2): the third statement class `MovedMod`:
-`label + N` / `label - N` (SIGNED `N`) in a four-digit operand field with no more side condition than acceptance
-in both layouts needs.  The field holds the value modulo `$10000` (a negative `label + N` in two's complement), and
-under relocation it moves by `D` MODULO `$10000` (`Stmt.shiftAdditionalMod`).
+Lemmas/RelocMod.lean — relocation (C18-R1), part 11 (repair batches B2, B3): the third statement class `MovedMod`:
+`label + N` / `label - N` (SIGNED `N`) in a four-digit field with no more side condition than acceptance in both
+layouts needs — as the operand (`MovedModRef`: `FDB A+N`, `LDX #A-N`, `LDA [A+N]`) or, since B3, as constant offset of
+a pointer register (`MovedModAbs`: `LDA A+N,X`).  The field holds the value modulo `$10000` (`calculate_address_offset`
+reduces a negative result modulo `$10000` and rejects one above `$FFFF`, for both operators since B3), and under
+relocation it moves by `D` MODULO `$10000` (`Stmt.shiftAdditionalMod`).
 -/
 import CoCoVerif.Lemmas.RelocSigned
 
 namespace CoCo.Asm
 open CoCo
 
-/-- `label + N` / `label - N` (no PCR) in a four-digit field that `fit_operand_width` looks at; for `+` the value
-`a + c` is at least `-$8000` and `a + c + D` at most `$FFFF` (so that both layouts accept it); for `-` no condition -/
-def MovedMod (D : Nat) (as : List Stmt) (s : Stmt) : Prop :=
+/-- `label + N` / `label - N` as the OPERAND (no PCR) in a four-digit field that `fit_operand_width` looks at; the
+value `a ± c`, moved by `D`, is at most `$FFFF` (so that both layouts accept it).  Since B3 the condition is the same
+for both operators, and there is no lower bound. -/
+def MovedModRef (D : Nat) (as : List Stmt) (s : Stmt) : Prop :=
   (s.operand.kind == .relative) = false ∧ s.pkg.needsRes = false ∧ Field4 s ∧
-  ∃ l r op m t a k nn, s.operand.value = .expr l r op m true ∧ LabelNum as l r t a k nn ∧
-    ((op = '+' ∧ -32768 ≤ (a : Int) + signedK k nn ∧ (a : Int) + signedK k nn + D ≤ 65535) ∨ op = '-')
+  ModExpr D as s.operand.value
+
+/-- (repair batch B3) `label + N` / `label - N` as CONSTANT OFFSET of a pointer register (`LDA A+N,X`, `LDD [A-N,U]`):
+no label in the operand value, `needsRes` without post byte choices, the expression sits in `additional` -/
+def MovedModAbs (D : Nat) (as : List Stmt) (s : Stmt) : Prop :=
+  (s.operand.kind == .relative) = false ∧ s.operand.value ≠ .pyNone ∧ s.operand.value.isAddrExpr = false ∧
+  s.operand.value.isAddress = false ∧ s.pkg.needsRes = true ∧ s.pkg.choices.isEmpty = true ∧ s.isIdx = true ∧
+  Field4 s ∧ ModExpr D as s.pkg.additional
+
+/-- the third class: a `label ± N` reference in a four-digit field that both layouts accept -/
+def MovedMod (D : Nat) (as : List Stmt) (s : Stmt) : Prop := MovedModRef D as s ∨ MovedModAbs D as s
+
+/-- in either sub-class the operand value is not a number (so the statement is not an ORG) -/
+theorem MovedMod.not_numeric {D : Nat} {as : List Stmt} {s : Stmt} (h : MovedMod D as s) :
+    s.operand.value.isNumeric = false ∨ s.pkg.needsRes = true := by
+  rcases h with ⟨_, _, _, he⟩ | h
+  · left
+    obtain ⟨l, r, op, m, hv⟩ := he.isAddrExpr
+    rw [hv]; rfl
+  · exact .inr h.2.2.2.2.1
 
 section
 variable {D : Nat} {as as' : List Stmt}
+
+/-- `fix_addresses` on a constant offset `label ± c` of a pointer register whose value is `x`: `x` is stored -/
+theorem fixOne_abs_expr {ss : List Stmt} (i : Nat) {s : Stmt} {l r : Value} {op : Char} {m : Mode} {x : Nat}
+    (hk : (s.operand.kind == .relative) = false) (hv : s.operand.value ≠ .pyNone)
+    (hE : s.operand.value.isAddrExpr = false) (hA : s.operand.value.isAddress = false)
+    (hn : s.pkg.needsRes = true) (hc : s.pkg.choices.isEmpty = true) (hidx : s.isIdx = true)
+    (he : s.pkg.additional = .expr l r op m true) (hx : x < 65536)
+    (ho : addrOffset ss (.expr l r op m true) = .ok (.numeric x (some 4) .extended false)) :
+    fixOne ss i s = .ok (withAdditional s (.numeric x (some 4) .extended false)) := by
+  rw [fixOne_abs_eq _ _ _ hk hv hE hA hn hc, fixPartAbs_eq, fixRelTarget_expr _ _ hidx he, ho]
+  dsimp only [Value.int?]
+  rw [if_pos (by omega)]
+  rfl
 
 /-- (b, moved modulo) both layouts accept the statement; the four-digit field holds `x` resp. `(x + D) mod $10000` -/
 theorem fixFit_movedMod_aux (h : PW (AddrShiftI D) as as') (i : Nat) {s : Stmt} (hc : MovedMod D as s) :
     ∃ x, x < 65536 ∧ fixFit as i s = .ok (withAdditional s (.numeric x (some 4) .extended false)) ∧
       fixFit as' i s = .ok (withAdditional s (.numeric ((x + D) % 65536) (some 4) .extended false)) := by
-  obtain ⟨hk, hn, hf, l, r, op, m, t, a, k, nn, hv, hl, hcase⟩ := hc
-  rcases hcase with ⟨rfl, h0, h1⟩ | rfl
-  · have p0 : 0 ≤ ((a : Int) + signedK k nn) % 65536 := Int.emod_nonneg _ (by decide)
-    have p1 : ((a : Int) + signedK k nn) % 65536 < 65536 := Int.emod_lt_of_pos _ (by decide)
-    refine ⟨(((a : Int) + signedK k nn) % 65536).toNat, by omega, ?_, ?_⟩
-    · rw [fixFit_label_plus hl i hf hk hv hn, if_pos ⟨h0, by omega⟩]
-    · rw [fixFit_label_plus (hl.reloc h) i hf hk hv hn, if_pos ⟨by omega, by omega⟩]
-      have e : ((((a + D : Nat) : Int) + signedK k nn) % 65536).toNat
-          = ((((a : Int) + signedK k nn) % 65536).toNat + D) % 65536 := by omega
-      rw [e]
-  · have p0 : 0 ≤ ((a : Int) - signedK k nn) % 65536 := Int.emod_nonneg _ (by decide)
-    have p1 : ((a : Int) - signedK k nn) % 65536 < 65536 := Int.emod_lt_of_pos _ (by decide)
-    refine ⟨(((a : Int) - signedK k nn) % 65536).toNat, by omega, fixFit_label_minus hl i hf hk hv hn, ?_⟩
-    rw [fixFit_label_minus (hl.reloc h) i hf hk hv hn]
-    have e : ((((a + D : Nat) : Int) - signedK k nn) % 65536).toNat
-        = ((((a : Int) - signedK k nn) % 65536).toNat + D) % 65536 := by omega
-    rw [e]
+  rcases hc with ⟨hk, hn, hf, he⟩ | ⟨hk, hv, hE, hA, hn, hcc, hidx, hf, he⟩
+  · obtain ⟨x, hx, e1, e2⟩ := he.reloc h
+    obtain ⟨l, r, op, m, hv⟩ := he.isAddrExpr
+    rw [hv] at e1 e2
+    refine ⟨x, hx, ?_, ?_⟩
+    · unfold fixFit
+      rw [fixOne_expr_eq _ _ _ hk hv hn, e1]
+      exact fitWidth_field4_nat hf hx
+    · unfold fixFit
+      rw [fixOne_expr_eq _ _ _ hk hv hn, e2]
+      exact fitWidth_field4_nat hf (Nat.mod_lt _ (by decide))
+  · obtain ⟨x, hx, e1, e2⟩ := he.reloc h
+    obtain ⟨l, r, op, m, hadd⟩ := he.isAddrExpr
+    rw [hadd] at e1 e2
+    refine ⟨x, hx, ?_, ?_⟩
+    · unfold fixFit
+      rw [fixOne_abs_expr i hk hv hE hA hn hcc hidx hadd hx e1]
+      exact fitWidth_field4_nat hf hx
+    · unfold fixFit
+      rw [fixOne_abs_expr i hk hv hE hA hn hcc hidx hadd (Nat.mod_lt _ (by decide)) e2]
+      exact fitWidth_field4_nat hf (Nat.mod_lt _ (by decide))
 
 /-- (b, moved modulo) the same outcome (accepted, in fact), the operand field moved by `D` modulo `$10000` -/
 theorem fixFit_movedMod (h : PW (AddrShiftI D) as as') (i : Nat) {s : Stmt} (hc : MovedMod D as s) :
